@@ -5,6 +5,12 @@ verus! {
 pub broadcast axiom fn axiom_str_ref_obeys_cmp<'a>()
     ensures #[trigger] vstd::std_specs::btree::key_obeys_cmp_spec::<&'a str>();
 
+// String / &String keys likewise
+pub broadcast axiom fn axiom_string_ref_obeys_cmp<'a>()
+    ensures #[trigger] vstd::std_specs::btree::key_obeys_cmp_spec::<&'a String>();
+pub broadcast axiom fn axiom_string_obeys_cmp()
+    ensures #[trigger] vstd::std_specs::btree::key_obeys_cmp_spec::<String>();
+
 // an ascending listing of a finite set (as BTreeSet::iter / BTreeMap iteration produce it)
 pub open spec fn sorted_listing<K>(s: Seq<K>, set: Set<K>) -> bool {
     s.len() == set.len() && (forall|i: int| 0 <= i < s.len() ==> set.contains(#[trigger] s[i])) && vstd::std_specs::btree::increasing_seq(s)
